@@ -4,5 +4,5 @@ CONSTANTS
   MaxLen = 0
   DelimSets = {}
   Obs <- ObsTrace
-INVARIANT PosInBounds
+INVARIANT TracePosInBounds
 CHECK_DEADLOCK FALSE
